@@ -35,15 +35,15 @@ def ceilQ (n : Int) (d : Nat) : Int := -((-n) / (d : Int))
 division is inexact (`b ≠ 0`). -/
 def pyFloorDiv (a b : Int) : Int :=
   let q : Int := (a.natAbs / b.natAbs : Nat)
-  let r := a.natAbs % b.natAbs
-  if (a < 0) == (b < 0) then q else if r == 0 then -q else -q - 1
+  let r : Int := (a.natAbs % b.natAbs : Nat)
+  if (a < 0 ↔ b < 0) then q else if r = 0 then -q else -q - 1
 
 /-- CPython `int.__mod__`: remainder of the magnitudes, sign and offset corrected so that the result has
 the sign of the divisor (`b ≠ 0`). -/
 def pyMod (a b : Int) : Int :=
   let r : Int := (a.natAbs % b.natAbs : Nat)
-  if r == 0 then 0
-  else if (a < 0) == (b < 0) then (if b < 0 then -r else r)
+  if r = 0 then 0
+  else if (a < 0 ↔ b < 0) then (if b < 0 then -r else r)
   else (if b < 0 then r + b else b - r)
 
 /-- number of decimal digits of `n` (`0` has one digit) -/
